@@ -174,6 +174,16 @@ func (m *machine) bytesLess(a, b []value) value {
 	if len(b) < n {
 		n = len(b)
 	}
+	// equal lengths of 2..8 bytes: one unsigned comparison of the big-endian words (the bytes of a
+	// packed integer re-join to that integer, so the 8-byte timestamp suffix compares as a word)
+	if len(a) == len(b) && n >= 2 && n <= 8 {
+		wa, wb := m.toTerm(a[0], 8), m.toTerm(b[0], 8)
+		for i := 1; i < n; i++ {
+			wa = m.ts.Concat(wa, m.toTerm(a[i], 8))
+			wb = m.ts.Concat(wb, m.toTerm(b[i], 8))
+		}
+		return fromTerm(m.ts.Cmp(OpUlt, wa, wb))
+	}
 	// lt = exists i<n: prefix equal and a[i]<b[i], or prefix(n) equal and len(a)<len(b)
 	res := m.ts.Bool(len(a) < len(b))
 	for i := n - 1; i >= 0; i-- {
